@@ -364,6 +364,8 @@ PROPS = {
     },
     'C16': {
         'contract_modules': ['c16_network'],
+        'replay': 'c16.py',
+        'extra': [('bounded:start-finish-sequences', bounded_replay('c16.py', 'C16', '_unshare_network/_cleanup_network sequences on real rule and endpoint directories', 400, 30000))],
         'functions': ['treadmill.runtime.linux._finish:_cleanup_ephemeral_ports',
                       'treadmill.runtime.linux._finish:_cleanup_network',
                       'treadmill.runtime.linux._run:_unshare_network'],
@@ -399,7 +401,10 @@ PROPS = {
             'over spec names and is not) - the spec half of the statement is NOT decided by this check',
             'the site firewall plugin (apply_exception_rules / cleanup_exception_rules), newnet.create_newnet, '
             'iptables.flush_cnt_conntrack_table and the network service client are assumed not to touch the registrations '
-            'named here; appcfg.app_unique_name is a function of the manifest; runtime.allocate_network_ports (distinct '
+            'named here; BOUNDED stand-in (labelled bounded): replay/c16.py runs random interleavings of start / finish / '
+            'repeated finish of up to three containers with the real RuleMgr and EndpointsMgr on temporary directories and a '
+            'recording ip-set fake, and compares rules, endpoint specs (the half the proof does not decide) and ip sets with '
+            'the state before the start; appcfg.app_unique_name is a function of the manifest; runtime.allocate_network_ports (distinct '
             'ports, disjoint ranges) is not under contract; interleavings of two containers are covered in the sense that '
             'every clause is proved for an arbitrary directory content at the start of each call',
         ],
